@@ -37,7 +37,7 @@ C04QuickSvcs == {0, 1, 2, 5}
 (* ---- C05, quick: loop-control boundaries, clients, ramp-up ---- *)
 C05QuickConfigs ==
     Mk(IterLoops({0, 1, 2}, {1, 2, 3}), {Unthrottled, Det(1, 1), Poi(1, 1)}, {Single, <<2, 1, 2, 0>>}, {1})
-    \cup Mk(TimeLoops({0, 1, 2, 3}, {1, 2, 3, 4}), {Unthrottled, Det(1, 1)}, {Single, <<2, 1, 2, 0>>, <<2, 1, 2, 2>>, <<1, 1, 2, 2>>}, {1})
+    \cup Mk(TimeLoops({0, 1, 2, 3}, {1, 2, 3}), {Unthrottled, Det(1, 1)}, {Single, <<2, 1, 2, 0>>, <<2, 1, 2, 2>>, <<1, 1, 2, 2>>}, {1})
     \cup Mk(TimeLoops({2}, {3}), {Poi(1, 1)}, {<<2, 1, 2, 2>>}, {1})
 C05QuickSvcs == {0, 1, 3}
 
@@ -57,10 +57,10 @@ C05ThoroughSvcs == {0, 1, 3}
 
 (* ---- simulation (S2C): wide alphabets, 1 tick = 1 s and 1 tick = 1/4 s ---- *)
 SimConfigs ==
-    Mk(IterLoops({0, 1, 2, 3}, {1, 2, 3, 5}) \cup TimeLoops({0, 2, 3, 4}, {1, 3, 4, 8}),
+    Mk(IterLoops({0, 1, 3}, {2, 5, 8}) \cup TimeLoops({0, 2, 4}, {3, 8, 12}),
        {Unthrottled, Det(1, 2), Det(1, 1), Poi(1, 2), DetDocs(1, 1), DetConv(1, 2), DetAbort(1, 1), PoiConv(1, 1)},
        {Single, <<2, 0, 2, 0>>, <<2, 1, 2, 0>>, <<2, 1, 2, 2>>, <<1, 1, 2, 2>>, <<2, 3, 4, 4>>, <<4, 2, 4, 2>>}, {1})
-    \cup Mk(IterLoops({0, 2}, {2, 4}) \cup TimeLoops({0, 4, 8}, {6, 12}),
+    \cup Mk(IterLoops({0, 2}, {2, 6}) \cup TimeLoops({0, 4, 8}, {6, 12, 24}),
        {Unthrottled, Det(2, 1), Det(1, 1), Poi(4, 1), DetConv(2, 1)},
        {Single, <<2, 1, 2, 0>>, <<2, 1, 2, 4>>, <<2, 3, 4, 8>>}, {4})
 SimSvcs == {0, 1, 2, 3, 5, 9}
